@@ -116,7 +116,16 @@ def _machine(ctx, opaque=()):
     M = S.Exec(ctx.repo, inline_modules=INLINE, effects=effects)
     M.opaque_names = set(opaque)
     orig = M.may_inline
-    M.may_inline = lambda sc: sc.qualname not in M.opaque_names and orig(sc)
+    direct = {}
+
+    def glue(sc):
+        """a function of another module that itself assigns one of the tracked attributes (multipliers, penalties, parameters) of an argument
+        is load-step glue, not a solver: it is followed, so that the assignment is seen (its own callees stay subject to the policy)"""
+        q = sc.qualname
+        if q not in direct:
+            direct[q] = sc.is_function() and any(_attr_writers([sc], a) for a in ("lam", "kappa", "p"))
+        return direct[q]
+    M.may_inline = lambda sc: sc.qualname not in M.opaque_names and (orig(sc) or glue(sc))
     return M
 
 
